@@ -40,7 +40,7 @@ def run_model_parallel(ctx, lines, procs=16):
     chunks = [lines[i::n] for i in range(n)]
 
     def one(chunk):
-        p = subprocess.run([vlib.MODEL, "c12"], input="".join(chunk), stdout=subprocess.PIPE,
+        p = vlib.srun([vlib.MODEL, "c12"], input="".join(chunk), stdout=subprocess.PIPE,
                            stderr=subprocess.PIPE, text=True, timeout=3000)
         return p.returncode, p.stdout, p.stderr
 
